@@ -178,8 +178,7 @@ def parse_val(t):
 
 
 def run(chk, replay=None):
-    # vlib's SplitMix streams for adjacent seeds are shifted copies of each other: spread the seeds
-    rng = C.SplitMix(chk.seed * 2654435761 + 97 * (chk.seed % 1009) + 12345)
+    rng = C.SplitMix(chk.seed)
     gen = os.path.join(C.LEAN, "Vita", "C13", "Gen.lean")
     broken = []
     names = None
